@@ -6,9 +6,14 @@ import common as C
 import c03
 
 PROP_FILES = ["Props/C04.v", "Props/C04Text.v", "Props/C04Utf8.v"]
+# the tamper theorems transferred to the model of the default reader (Codec/ReaderValid.v, phase 3)
+if os.path.exists(os.path.join(C.COQ, "Props", "C04Valid.v")):
+    PROP_FILES.append("Props/C04Valid.v")
 OBLIG_FILES = ["Oblig/C04Obl.v", "Oblig/C03Obl.v", "Model/TamperFacts.v", "Model/TruncFacts.v", "Model/ArithFacts.v", "Model/ArithTable.v",
                "Oblig/C04TextObl.v", "Model/TamperTextFacts.v", "Model/TamperTextLift.v", "Model/TruncBytes.v", "Model/TruncCtl.v",
                "Oblig/C04Utf8Obl.v", "Model/Utf8Prefix.v", "Model/TruncUtf8Facts.v"]
+if os.path.exists(os.path.join(C.COQ, "Oblig", "C01ValidObl.v")):
+    OBLIG_FILES.append("Oblig/C01ValidObl.v")
 
 # perturbation kinds of harness/internal/arith/perturb.go that change exactly one protected field
 PROTECTED_KINDS = "0,1,2,3,4,5,6,8,9,10,12,13,20,21,22,23,24"
